@@ -257,6 +257,7 @@ class TheoremResult:
         self.obligs = []       # list[Oblig]
         self.paths = 0
         self.unsupported = None
+        self.frame_violation = None
         self.notes = {"inlined": set(), "unrolled": {}, "native": set(), "assumed_contracts": set()}
         self.inputs_by_path = {}
         self.covered_cases = set()
@@ -341,12 +342,16 @@ def generate(thm, all_contracts=None):
                            {"case": case.name, "kind": "outcome", "got": got, "want": want})
         ctx.oblige(f"{thm.name}.cases_exhaustive", z3.Or(*whens) if whens else z3.BoolVal(False),
                    {"kind": "exhaustive"})
+        # frame: reaching this point means no statement on this path assigned into a module-level object
+        ctx.oblige(f"{thm.name}.frame", z3.BoolVal(True),
+                   {"kind": "frame", "clause": "modifies nothing that outlives the call (no assignment into module-level objects)"})
         return outcome
 
     try:
         paths = explore(run, opts=opts)
     except Unsupported as u:
         res.unsupported = f"{type(u).__name__}: {u}"
+        res.frame_violation = str(u) if isinstance(u, engine.FrameViolation) else None
         res.gen_s = time.time() - t0
         return res
     res.paths = len([p for p in paths if p.kind != "dead"])
